@@ -88,6 +88,9 @@ def _swarm_feat(cfg):
     f["pathvars"] = cfg.random() < 0.3
     f["ret_kinds"] = ["tuple"] + (["str", "bytes"] if cfg.random() < 0.3 else [])
     f["classes"] = cfg.random() < 0.35
+    f["wraps"] = cfg.random() < 0.5
+    f["rtcalls"] = cfg.random() < 0.6
+    f["rec_builtin"] = cfg.random() < 0.4
     f["share"] = cfg.choice([0.0, 0.3, 0.6])
     return f
 
@@ -140,7 +143,8 @@ def gen_program(rng, feat):
     for k in range(feat["nvars"]):
         kind = rng.choice(feat["var_kinds"])
         vars_[f"V{k}"] = {"mod": mods[rng.randrange(nm)], "kind": kind, "value": rng.choice(VAR_VALUES[kind])}
-    prog = {"pkg": pkg, "accept": feat["accept"], "decoys": feat["decoys"], "mods": mods, "vars": vars_,
+    prog = {"rec_builtin": bool(feat.get("rec_builtin")),
+            "pkg": pkg, "accept": feat["accept"], "decoys": feat["decoys"], "mods": mods, "vars": vars_,
             "funcs": funcs, "order": list(names), "extra": {}, "ext": {"EXTV": 1, "ext_ver": 1}}
     rng.shuffle(prog["order"])
     # wiring
@@ -234,7 +238,9 @@ def _add_ref(prog, caller, callee, rng, feat, paths):
     elif g["kind"] == "data":
         c["body"].append({"t": "call", "f": callee, "form": form})
     else:
-        if feat["ho"] and rng.random() < 0.25:
+        if feat.get("wraps") and rng.random() < 0.3 and form in ("direct", "from", "alias"):
+            c["body"].append({"t": "call", "f": callee, "form": form, "wrap": rng.choice(["kw", "pos", "chain", "hokw"])})
+        elif feat["ho"] and rng.random() < 0.25:
             # higher-order references are only discovered for plain names (changelog GH-133), not `module.f`
             c["body"].append({"t": "ho", "f": callee, "form": form if form in ("direct", "from", "alias") else "from"})
         else:
@@ -249,8 +255,22 @@ def _fix_rt_refs(prog, rng, feat):
             if it["t"] != "keep":
                 continue
             avail = [f"r{j}" for j in range(i)] + [p for (p, _) in f["params"]]
+            mods = prog["mods"]
+            helpers = [h for h, hf in sorted(prog["funcs"].items()) if hf["kind"] == "plain" and not hf.get("ill")
+                       and int(h[1:]) > int(fn[1:]) and h != it["f"] and mods.index(hf["mod"]) >= mods.index(f["mod"])
+                       and not _contains_keeps(prog, h)] if feat.get("rtcalls") and fn[1:].isdigit() else []
             for a in it["args"]:
                 if a["k"] in ("rt", "kwrt"):
+                    if helpers and rng.random() < 0.7:
+                        h = rng.choice(helpers)
+                        if a["k"] == "rt":
+                            a.clear()
+                            a.update({"k": "rtcall", "f": h})
+                        else:
+                            n_ = a["n"]
+                            a.clear()
+                            a.update({"k": "kwrtcall", "n": n_, "f": h})
+                        continue
                     if avail:
                         a["e"] = rng.choice(avail)
                     else:
@@ -262,6 +282,23 @@ def _fix_rt_refs(prog, rng, feat):
                             n = a["n"]
                             a.clear()
                             a.update({"k": "kw", "n": n, "v": v})
+
+
+def _contains_keeps(prog, fn, seen=None):
+    """True when fn or a plain function it calls keeps / calls data functions / loads (used to keep argument
+    expressions free of kept nodes: a helper called inside an argument list must be an ordinary function)."""
+    seen = seen or set()
+    if fn in seen:
+        return False
+    seen.add(fn)
+    for it in prog["funcs"][fn]["body"]:
+        if it["t"] in ("keep", "load"):
+            return True
+        if "f" in it:
+            g = prog["funcs"][it["f"]]
+            if g["kind"] in ("data", "target") or _contains_keeps(prog, it["f"], seen):
+                return True
+    return False
 
 
 def renumber_rt(prog):
@@ -432,6 +469,9 @@ def reachable(prog, root):
         for it in prog["funcs"][f]["body"]:
             if "f" in it:
                 stack.append(it["f"])
+            for a in it.get("args", []):
+                if a.get("f"):
+                    stack.append(a["f"])
     return seen
 
 
